@@ -115,16 +115,23 @@ Theorem C08_h3_cancel_anywhere : forall c s, reach3 true c s -> ended3 s = true 
 Proof. exact h3_cancel_anywhere. Qed.
 Print Assumptions C08_h3_cancel_anywhere.
 
+Theorem C08_h3_stream_wait_interruptible : forall c s cs,
+  c3 s = C3Stream -> ctx3 s = Some cs ->
+  exists s', step3 true c s LStreamCtx = Some s' /\ c3 s' = C3Ret (CErr (ECause cs)) /\
+             scancel s' = scancel s /\ (c3_body c = true -> bclosed3 s' = true).
+Proof. exact h3_stream_wait_interruptible. Qed.
+Print Assumptions C08_h3_stream_wait_interruptible.
+
 (* the pinned HTTP/3 code: a cancelled dial fails the next request and leaves the body open; a
    pending body read fails with an error that is not the cause *)
 Theorem C08_h3_pinned_poisons_next_request :
-  exists s, run3 false (mkCfg3 false true) (init3 (mkCfg3 false true)) [ZCancel CCanceled; LWaitCtx; LDialCtx] = Some s /\
+  exists s, run3 false (mkCfg3 false true false) (init3 (mkCfg3 false true false)) [ZCancel CCanceled; LWaitCtx; LDialCtx] = Some s /\
             follow_ok false s = false /\ bclosed3 s = false /\ c3 s = C3Ret (CErr (ECause CCanceled)).
 Proof. exact h3_pinned_poisons_next_request. Qed.
 
 Theorem C08_h3_pinned_body_error_not_cause :
-  exists s, run3 false (mkCfg3 true false) (init3 (mkCfg3 true false))
-              [LProceed; ZHdrSent; ZResp true; ZCancel CDeadline; LCancelG; LBodyFail] = Some s /\
+  exists s, run3 false (mkCfg3 true false false) (init3 (mkCfg3 true false false))
+              [LProceed; LStreamOpen; ZHdrSent; ZResp true; ZCancel CDeadline; LCancelG; LBodyFail] = Some s /\
             pipe3 s = BErr EOther.
 Proof. exact h3_pinned_body_error_not_cause. Qed.
 
@@ -203,6 +210,17 @@ Print Assumptions C08_window_restored.
 Theorem C08_window_ignored_refuted : forall w ns,
   stray_frames false (win_init w) ns = Some (mkIn w 0, 0%Z, (w - fold_right Z.add 0 ns)%Z).
 Proof. exact window_ignored_refuted. Qed.
+
+(* HTTP/2 HPACK: the connection's encoder and the peer's decoder stay in step whatever requests are
+   cancelled before or while their headers are written *)
+Theorem C08_hpack_tables_in_step : forall ls, h_enc (hrun false ls) = h_sent (hrun false ls).
+Proof. exact hpack_tables_in_step. Qed.
+Print Assumptions C08_hpack_tables_in_step.
+
+Theorem C08_hpack_late_check_refuted :
+  let s := hrun true [HSend 0 false false; HSend 1 false true; HSend 2 false false] in
+  h_enc s = [0; 1; 2] /\ h_sent s = [0; 2].
+Proof. exact hpack_late_check_refuted. Qed.
 
 (* a dial shared by two requests: the one that joined never fails because the owner's context ended *)
 Theorem C08_share_waiter_never_fails : forall ls s,
